@@ -94,3 +94,13 @@ for f in ('BitBoard_getDirection', 'BitBoard_getKingDistance', 'BitBoard_getTaxi
     GROUPS.append(Group(f, 'h_' + f, enforce=f, replace=('Square_getX', 'Square_getY') if 'Distance' in f else (), min_props=1))
 UNWIND = {'spec_popcount': 65, 'spec_lowest': 65, 'spec_highest': 65}
 PROPERTIES = {'C01': [g.name for g in GROUPS]}
+
+MUTANTS = [
+    dict(name='bitCount_mask', file='lib/texellib/bitBoard.hpp', pattern=r'const U64 k2 = 0x3333333333333333ULL;', repl='const U64 k2 = 0x3333333333333331ULL;', groups=['BitUtil_bitCount']),
+    dict(name='trailingZ_table_entry', file='lib/texellib/bitBoard.cpp', pattern=r'    60, 39, 48, 27, 54, 33, 42,  3,', repl='    60, 39, 48, 27, 54, 33, 41,  3,', groups=['BitUtil_firstBit']),
+    dict(name='mirrorX_mask', file='lib/texellib/bitBoard.hpp', pattern=r'    U64 k1 = 0x5555555555555555ULL;\n    U64 k2 = 0x3333333333333333ULL;\n    U64 k3', repl='    U64 k1 = 0x5555555555555555ULL;\n    U64 k2 = 0x3333333333333331ULL;\n    U64 k3', groups=['BitBoard_mirrorX']),
+    dict(name='mirrorY_last_swap', file='lib/texellib/bitBoard.hpp', pattern=r't = \(\(t >> 32\)     \) \| \(\(t     \) << 32\);', repl='t = ((t >> 32)     ) | ((t     ) << 31);', groups=['BitBoard_mirrorY']),
+    dict(name='wPawnAttacksMask_files', file='lib/texellib/bitBoard.hpp', pattern=r'return \(\(mask & maskBToHFiles\) << 7\) \|\n           \(\(mask & maskAToGFiles\) << 9\);', repl='return ((mask & maskAToGFiles) << 7) |\n           ((mask & maskBToHFiles) << 9);', groups=['BitBoard_wPawnAttacksMask']),
+    dict(name='southFill_short', file='lib/texellib/bitBoard.hpp', pattern=r'    mask \|= \(mask >> 8\);\n    mask \|= \(mask >> 16\);\n    mask \|= \(mask >> 32\);', repl='    mask |= (mask >> 8);\n    mask |= (mask >> 16);', groups=['BitBoard_southFill']),
+    dict(name='mirrorY_square', file='lib/texellib/square.hpp', pattern=r'Square::mirrorY\(\) const \{\n    return Square\(sq \^ 0x38\);', repl='Square::mirrorY() const {\n    return Square(sq ^ 0x30);', groups=['Square_mirrorY']),
+]
